@@ -54,7 +54,7 @@ def cases_rel(tier, seed):
                             flags.append("must_reject")
                         else:
                             flags.append("may_reject")
-                            if kw == "long":
+                            if kw == "long" and has32:
                                 flags.append(("minlen", 5))
                     elif dc == "out":
                         flags.append("must_reject")
